@@ -17,6 +17,7 @@ from vf.explore import UniformDraw
 _CURRENT = [None]
 _NORMAL_HOOK = [None]
 _FORCED = [None]
+_STD_NORMAL_HOOK = [None]
 
 
 def force_random(values):
@@ -85,6 +86,13 @@ class ScriptedGenerator(np.random.Generator):
         if hook is None:
             raise TypeError("ScriptedGenerator.normal without a hook")
         return hook(loc, scale, size)
+
+
+    def standard_normal(self, size=None, *a, **k):
+        hook = _STD_NORMAL_HOOK[0]
+        if hook is None:
+            raise TypeError("ScriptedGenerator.standard_normal without a hook")
+        return hook(size)
 
 
 def make(tag="rng", seed=0):
